@@ -533,6 +533,29 @@ def loadack_sessions(rng):
     return out
 
 
+_FRESH_LITE = {}
+
+
+def judge_used_radio(l, io):
+    """a constructed object starts from the documented defaults whatever the radio held before: right after
+    `new a lite 0` every register the constructor configures equals its value after construction on a fresh chip"""
+    from harness.rfsession import run_line as _run
+    if not _FRESH_LITE:
+        r = parse_out(_run("rf 1 1 new a lite 0"))[0]["radios"][0]
+        _FRESH_LITE.update({k: r.get(k) for k in ("cfg", "aa", "rxen", "aw", "retr", "ch", "rf", "dyn", "feat", "pw", "ce")})
+    names, ops = l.split(" ; "), parse_out(io)
+    for k, (name, o) in enumerate(zip(names, ops)):
+        if name == "new a lite 0" and o["radios"]:
+            if o["res"].startswith("exc="):
+                return Finding(l, f"op {k}: constructing the lite driver on a used radio raised {o['res'][4:]}", {"op_index": k})
+            r = o["radios"][0]
+            for key, want in _FRESH_LITE.items():
+                if r.get(key) != want:
+                    return Finding(l, f"op {k}: after constructing the lite driver on a radio another object had configured, register "
+                                      f"{key}={r.get(key)}; constructed on a fresh chip it is {want}", {"op_index": k})
+    return None
+
+
 def judge_loadack(l, io):
     names, ops = l.split(" ; "), parse_out(io)
     for k, (name, a) in enumerate(zip(names, ops)):
@@ -654,8 +677,18 @@ class C20(PropCheck):
         la = loadack_sessions(rng)
         res.exhaustive_blocks.append(f"load_ack: every length 0..33 x pipe -1..6 x 5 states = {len(la)} sessions")
         cs += [(l, "load_ack-exhaustive") for l in la]
-        # every method with optional parameters, called with them omitted (documented defaults)
+        # the lite driver constructed on a radio that another object configured before (its __init__ must not
+        # depend on reset values), then a few of its own calls
         from harness import gen_rf
+        for _ in range(60 if q else 800):
+            ops = ["new z rf24 0", "z enter"]
+            for _ in range(rng.randint(3, 12)):
+                op = gen_rf.config_op(rng, "z")
+                if "carrier_wave" not in op:
+                    ops.append(op)
+            ops += ["new a lite 0", "a update"] + [cfg_op(rng) for _ in range(rng.randint(0, 6))]
+            cs.append(("rf 1 1 " + " ; ".join(ops), "lite-on-used-radio"))
+        # every method with optional parameters, called with them omitted (documented defaults)
         cs += [(gen_rf.defaults_session(rng, "lite", cfg_op), "documented-defaults") for _ in range(100 if q else 1000)]
         return cs
 
@@ -688,6 +721,8 @@ class C20(PropCheck):
                 f = judge_loadack(l, io)
             elif l.startswith("rf 1 1 new a lite 0 ; a update ; "):
                 f = judge_cfg(l, io)
+            elif l.startswith("rf 1 1 new z rf24 0 ; z enter ; "):
+                f = judge_used_radio(l, io)
             if f:
                 out.append(f)
         seen = {f.case for f in out}
